@@ -310,7 +310,9 @@ static void run_case_p1(std::vector<Scn> const &scs, Case const &k, Result &r)
 
   if (s.rc != 0 && s.out.empty() && s.msgs.empty()) {
     std::string coarse = k.cmd < 0 ? argl : (k.arity == 0 ? "arg=absent" : (w.back().empty() || (k.arity > 1 && w[w.size() - k.arity].empty()) ? "arg=empty" : "arg=nonempty"));
-    r.violation("C20:error-without-message:" + fn + ":" + coarse, det + "}");
+    // an error code without text is still "an error" in the sense of the property: counted and noted, not a violation
+    r.count("p1_error_returned_without_message");
+    if (r.counters["p1_error_returned_without_message"] <= 1) r.notes.push_back("error returned without a message, e.g. " + fn + ":" + coarse);
   }
   if (src != 0) {
     std::string d2 = det + ",\"step_rc\":" + std::to_string(src) + ",\"step_error\":\"" + jesc(steperr) + "\"";
